@@ -75,4 +75,24 @@ TEXTS = {
         "level_text": "Random operation histories (predict / batches, skip, wasted, idle, clear_wasted, set_auto_waste) over 1..3 scenes for all four trackers; after each operation epochs, expiry, wasted / idle sets, physical store contents, statistics and conservation are compared with a lifecycle model; histories without clear_wasted are re-run with auto-waste periods 0 / 1 / 100 / sprinkled set_auto_waste calls and must produce identical records (up to id bijection), wasted sets, idle sets and epochs.",
         "level_note": "Which ids clear_wasted removes is observed (wasted-store contents just before the call), not predicted. Histories are sampled.",
     },
+    "C02": {
+        "technique": "runtime oracle: exact subset-DP assignment reference - exhaustive weight matrices for the Hungarian engine; per-call re-derivation of gates/weights (f64 IoU, Mahalanobis from the hooked Kalman state) for Sort/BatchSort histories",
+        "level_text": "Layer A runs SortVoting on all ~2e6 weight matrices with <= 3 x <= 3 cells over a grid straddling the threshold plus thousands of random matrices up to 8 x 8 and compares objective values with an exact DP. Layer B snapshots the live tracks before every predict call of hundreds (quick) / thousands (thorough) of crossing / convoy / crowd histories, recomputes gates and weights independently and requires the observed continuations to be clearly admissible and jointly optimal; calls where greedy matching is strictly worse than the optimum are counted and must reach a floor.",
+        "level_note": "Decisions within 1e-4 of a gate are skipped (counted); exact equality of a computed weight and the threshold is never judged. Histories are sampled.",
+    },
+    "C12": {
+        "technique": "runtime oracle: independent re-derivation of every VisualSORT decision from the galleries read out of the store before each call (usability, votes, claim weights, contests) + C02 positional oracle for the fallback stage",
+        "level_text": "Hundreds (quick) to 1.2e4 (thorough) histories over the option grid with look-alike / crossing / crowded / occluded objects; thousands of appearance contests per quick run. For every call the record's (track, voting type) is checked against the reference claims: visual only for a qualifying claim of the greatest-weight claimant, best claims honoured, losers never attached to the contested track, claim-less detections optimally assigned among the remaining tracks.",
+        "level_note": "Threshold comparisons on computed quantities have 1e-5..1e-4 bands (undecidable calls are counted); qualities are drawn from a grid that hits the thresholds exactly so that >= vs > is exercised on inputs. Own-area shares come from the library (C15).",
+    },
+    "C13": {
+        "technique": "runtime shadow-state monitor: per-track shadow lists maintained from the API boundary vs galleries / histories read from the store after every call; unique features identify their detection",
+        "level_text": "All four trackers; histories up to ~800 calls with 1..2 long-lived objects (track lifetimes to several hundred updates) and shorter multi-object ones; after every call every touched track is checked for history contents/order/length, gallery bound, collected count, eviction of a minimal-quality feature, collect-threshold filtering, layout (entry 0 newest with box) and, on wasted(), the conversions.",
+        "level_note": "Which of several equal-minimal-quality features is evicted is not prescribed (observed). Collect decisions inside the numeric band are skipped and counted.",
+    },
+    "C20": {
+        "technique": "exhaustive table enumeration against a reference lookup + differential / invariant monitors on constrained vs unconstrained tracker runs",
+        "level_text": "All 142 596 constraint tables with <= 3 entries (every order, every split over two add_constraints calls) are probed at 99 (gap, distance) points each; Sort and VisualSort histories with teleporting / re-appearing objects are run unconstrained, with non-binding and with random binding tables: equality (bit-exact) for non-binding ones, distance-limit invariant and assignment optimality among admissible pairs for binding ones.",
+        "level_note": "Table part is exhaustive for the stated alphabet; tracker histories are sampled.",
+    },
 }
